@@ -102,6 +102,13 @@ func (s *Script) next(addr int, path string) (Fault, func()) {
 	return f, s.cancel
 }
 
+// Activity grows whenever a request (of any kind) reaches the fault layer.
+func (s *Script) Activity() int {
+	s.mu.Lock()
+	defer s.mu.Unlock()
+	return s.pos + s.discCount + len(s.log)
+}
+
 func (s *Script) dead(addr int, path string) {
 	s.mu.Lock()
 	s.log = append(s.log, Req{Addr: addr, Path: path, F: Fault{K: "dead"}})
@@ -304,7 +311,8 @@ const httpStreamProto = protocol.ID("/http/1.1")
 
 type FaultHost struct {
 	host.Host
-	S *Script
+	S      *Script
+	AddrOf func(hostport string) int // which address id a request's Host header names
 }
 
 func (h *FaultHost) NewStream(ctx context.Context, p peer.ID, pids ...protocol.ID) (network.Stream, error) {
@@ -321,7 +329,7 @@ func (h *FaultHost) NewStream(ctx context.Context, p peer.ID, pids ...protocol.I
 	if !isHTTP {
 		return st, nil
 	}
-	return &faultStream{Stream: st, s: h.S, reqReady: make(chan struct{})}, nil
+	return &faultStream{Stream: st, s: h.S, reqReady: make(chan struct{}), addrOf: h.AddrOf}, nil
 }
 
 // faultStream sees the request written by libp2phttp's stream round tripper, decides the
@@ -333,6 +341,8 @@ type faultStream struct {
 	wmu      sync.Mutex
 	wbuf     bytes.Buffer
 	path     string
+	hostHdr  string
+	addrOf   func(host string) int
 	reqReady chan struct{}
 	readyOnce sync.Once
 
@@ -347,12 +357,18 @@ func (f *faultStream) Write(b []byte) (int, error) {
 	f.wmu.Lock()
 	if f.path == "" {
 		f.wbuf.Write(b)
-		if i := bytes.Index(f.wbuf.Bytes(), []byte("\r\n")); i >= 0 {
-			parts := strings.Split(string(f.wbuf.Bytes()[:i]), " ")
+		if i := bytes.Index(f.wbuf.Bytes(), []byte("\r\n\r\n")); i >= 0 {
+			lines := strings.Split(string(f.wbuf.Bytes()[:i]), "\r\n")
+			parts := strings.Split(lines[0], " ")
 			if len(parts) >= 2 {
 				f.path = parts[1]
 			} else {
 				f.path = "?"
+			}
+			for _, l := range lines[1:] {
+				if strings.HasPrefix(strings.ToLower(l), "host:") {
+					f.hostHdr = strings.TrimSpace(l[5:])
+				}
 			}
 			f.readyOnce.Do(func() { close(f.reqReady) })
 		}
@@ -394,6 +410,10 @@ func (f *faultStream) prepare() {
 	}
 	f.wmu.Lock()
 	path := f.path
+	addr := 0
+	if f.addrOf != nil {
+		addr = f.addrOf(f.hostHdr)
+	}
 	f.wmu.Unlock()
 	if isDiscovery(path) {
 		if f.s.discovery() {
@@ -402,7 +422,7 @@ func (f *faultStream) prepare() {
 		}
 		return // passthrough
 	}
-	flt, _ := f.s.next(0, path)
+	flt, _ := f.s.next(addr, path)
 	synth := func(code int) {
 		_ = f.Stream.Reset()
 		txt := fmt.Sprintf("HTTP/1.1 %d %s\r\nContent-Length: 9\r\nConnection: close\r\n\r\ninjected\n", code, http.StatusText(code))
